@@ -31,6 +31,8 @@ int vx_violations_this_exec(void);
 void vx_state(uint64_t fingerprint); /* a reached state (distinct ones are counted) */
 void vx_transition(void);            /* one executed operation / event              */
 void vx_transitions(uint64_t n);
+#define VX_NCOUNTERS 4
+void vx_counter(int idx, uint64_t n);   /* harness-defined statistics, reported as "counters" in the result  */
 void vx_outcome(uint64_t v);         /* mixed into this execution's outcome signature */
 
 /* Visited-state pruning: returns true if this fingerprint was already claimed
